@@ -311,6 +311,61 @@ theorem siblingHit_iff_general {d : Doc} {lo hi : Int} (hg : SibDates lo hi d) (
         obtain ⟨h1, h4, h5, h6⟩ := ha.mpr hd
         exact ⟨h1, hsf, by simp [errO, n1, n2], h4, h5, h6⟩
 
+
+/-- under the guard a pair that meets the condition has two *valid* birth dates (neither end is the
+    zero date): the property's "both have a valid birth date" -/
+theorem sibSpecG_valid {d : Doc} {lo hi : Int} (hg : SibDates lo hi d) (hlo : 106753 ≤ lo)
+    {c1 c2 : Nat} (h : SibSpecG d c1 c2) :
+    ∃ x1 x2, birthOf (indiOf d c1) = some x1 ∧ birthOf (indiOf d c2) = some x2 ∧
+      x1.valid = true ∧ x2.valid = true := by
+  obtain ⟨_, x1, x2, h1, h2, p1, p2, hd⟩ := h
+  have key : ∀ c x, birthOf (indiOf d c) = some x → x.parseErr = false → 106753 ≤ dayS x →
+      106753 ≤ dayE x → x.valid = true := by
+    intro c x hb hp hs he
+    cases x with
+    | ok t => rfl
+    | bad l => simp [DateV.parseErr] at hp
+    | gen l s e =>
+      have ts : timeOK s = true := by
+        cases h : timeOK s with
+        | true => rfl
+        | false => simp [dayS, startI, h, zeroTime, nsPerDay] at hs
+      have te : timeOK e = true := by
+        cases h : timeOK e with
+        | true => rfl
+        | false => simp [dayE, endI, h, zeroTime, nsPerDay] at he
+      simp only [timeOK, Bool.and_eq_true, decide_eq_true_eq] at ts te
+      have zs : s.isZero = false := by
+        cases h : s.isZero with
+        | false => rfl
+        | true => simp [PDate.isZero] at h; omega
+      have ze : e.isZero = false := by
+        cases h : e.isZero with
+        | false => rfl
+        | true => simp [PDate.isZero] at h; omega
+      simp [DateV.valid, zs, ze]
+  have s1 := shape_of_birth hg c1
+  have s2 := shape_of_birth hg c2
+  rw [h1] at s1; rw [h2] at s2
+  have r1 : 106753 ≤ dayS x1 ∧ 106753 ≤ dayE x1 ∧ 106753 ≤ dayS x2 ∧ 106753 ≤ dayE x2 := by
+    rcases s1 with e1 | ⟨_, _, _, z1⟩ | ⟨_, y1, e1, _, _, w1⟩
+    · simp [errO, p1] at e1
+    · obtain ⟨a1, a2⟩ := z1 _ rfl
+      rcases s2 with e2 | ⟨_, _, _, z2⟩ | ⟨_, y2, e2, _, _, w2⟩
+      · simp [errO, p2] at e2
+      · obtain ⟨a3, a4⟩ := z2 _ rfl
+        unfold SibDays at hd; omega
+      · simp only [Option.some.injEq] at e2; subst e2
+        unfold SibDays at hd; omega
+    · simp only [Option.some.injEq] at e1; subst e1
+      rcases s2 with e2 | ⟨_, _, _, z2⟩ | ⟨_, y2, e2, _, _, w2⟩
+      · simp [errO, p2] at e2
+      · obtain ⟨a3, a4⟩ := z2 _ rfl
+        unfold SibDays at hd; omega
+      · simp only [Option.some.injEq] at e2; subst e2
+        omega
+  exact ⟨x1, x2, h1, h2, key c1 x1 h1 p1 r1.1 r1.2.1, key c2 x2 h2 p2 r1.2.2.1 r1.2.2.2⟩
+
 /-- in the context of one family -/
 theorem raw_siblings_general (d : Doc) (now : Date) {lo hi : Int} (hg : SibDates lo hi d)
     (hlo : 106753 ≤ lo) (hspan : hi - lo ≤ 106751) (fp a b : Nat) :
